@@ -18,7 +18,7 @@ PayloadOf(cls) ==
     IF cls = "empty" THEN [id |-> "empty", big |-> FALSE]
     ELSE IF cls = "small" THEN [id |-> "small", big |-> FALSE]
     ELSE IF cls = "p498" THEN [id |-> "p498", big |-> FALSE]
-    ELSE IF cls = "big" THEN [id |-> "big", big |-> TRUE]
+    ELSE IF cls \in {"big", "p499", "p500", "p501"} THEN [id |-> cls, big |-> TRUE]
     ELSE [id |-> "large", big |-> TRUE]
 
 CaseOf(k) ==
